@@ -56,10 +56,13 @@ func c13Run(w *ndWriter, rng *rand.Rand, askers int, classes []string, modes []s
 			time.Sleep(2 * time.Millisecond)
 			reply()
 		case "never":
-		case "late":
+		case "late", "verylate":
 			select {
 			case <-r.release: // the asker has returned ErrActorAskTimeout
 			case <-time.After(10 * time.Second):
+			}
+			if r.class == "verylate" { // many timeouts later: whatever the timeout path left behind to absorb a late reply has had time to go away
+				time.Sleep(45 * time.Millisecond)
 			}
 			reply()
 		}
@@ -68,7 +71,7 @@ func c13Run(w *ndWriter, rng *rand.Rand, askers int, classes []string, modes []s
 	for a := 1; a <= askers; a++ {
 		class := classes[rng.Intn(len(classes))]
 		mode := modes[rng.Intn(len(modes))]
-		if class == "never" || class == "late" {
+		if class == "never" || class == "late" || class == "verylate" {
 			mode = "timeout"
 		}
 		r := &c13Req{req: a, msg: 100 + a, class: class, release: make(chan struct{})}
@@ -91,7 +94,7 @@ func c13Run(w *ndWriter, rng *rand.Rand, askers int, classes []string, modes []s
 				val = ask.AskOnce(actor)
 			case "timeout":
 				to := 100 * time.Millisecond
-				if class == "never" || class == "late" {
+				if class == "never" || class == "late" || class == "verylate" {
 					to = 3 * time.Millisecond
 				}
 				if class == "never" { // also a zero and a negative timeout (a deadline that has already passed): times out at once
@@ -287,7 +290,7 @@ func c13Main(args []string) error {
 		rounds := flagInt(args, "rounds", 30)
 		rng := rand.New(rand.NewSource(int64(envInt("VERIF_SEED", 1))))
 		n, runs := 0, 0
-		all := []string{"immediate", "prompt", "never", "late"}
+		all := []string{"immediate", "prompt", "never", "late", "verylate"}
 		modes := []string{"once", "timeout", "channel"}
 		// every single class alone, then mixes, then a queue of prompt requests longer than one timeout
 		for _, c := range all {
